@@ -1399,5 +1399,10 @@ package zygo
 //@ callers C13 (*Lexer).PeekNextToken | (*Parser).ParserPeekNextToken, (*Parser).ParseList, (*Parser).ParseArray, (*Parser).ParseInfix, (*Parser).ParseBlockComment, (*Parser).ParseBacktickString, (*Lexer).GetNextToken
 //@ func (*Parser).ParseList
 //@ ghost afterElem := TokenEnd @entry
-//@ ghost afterElem := ret0.typ @after call PeekNextToken[1]
+//@ ghost afterElem := ite(ret1 == nil, ret0.typ, TokenEnd) @after call ParserPeekNextToken[0]
 //@ C13 assert no-decision-on-the-end-token @before call ParseList[0]: afterElem != TokenEnd
+//@ func (*Parser).parseOperand
+//@ ghost opTok := TokenEnd @entry
+//@ ghost opTok := ite(ret1 == nil, ret0.typ, TokenEnd) @after call ParserPeekNextToken[0]
+//@ C13 assert operand-token-has-arrived @before call ParseExpression[0]: arg0 == parser && opTok != TokenEnd
+//@ callers C13 (*Parser).ParseExpression | (*Parser).ParsingIter, (*Parser).parseOperand, (*Parser).ParseList, (*Parser).ParseArray, (*Parser).ParseInfix, (*Parser).ParseExpression
